@@ -1,0 +1,17 @@
+//go:build verif
+
+// Contracts for package cli as far as the gnmi_cli binary's request construction
+// needs them (comment-only file, compiled only under the build tag "verif").
+package cli
+
+// Parsing, display and query-type lookup do not touch the caller's flag variables.
+// Their bodies (prototext parsing, client dialling, output formatting) are not verified.
+//@ func ParseSubscribeProto
+//@   trusted
+//@   note body not verified: text-proto parsing by the protobuf library
+//@ func QueryDisplay
+//@   trusted
+//@   note body not verified: client dialling and output formatting
+//@ func QueryType
+//@   trusted
+//@   note body not verified
